@@ -499,13 +499,15 @@ def run(ck):
     case = {'kind': 'directed:' + name, 'spec': spec, 'steps': steps, 'flags': flags,
             'inputs': [[(17 * c + 5 * j + 3) % 256 for j in range(spec['nin'])] for c in range(5)]}
     run_case(ck, case)
+    U.unload()
     ck.count(summary(case), True)
     ck.hist('kind', 'directed')
-  n = int(__import__("os").environ.get("C15_N", 250)) if ck.tier == 'quick' else 6000
+  n = 300 if ck.tier == 'quick' else 5000
   g = U.Gen(rng)
   for idx in range(n):
     case = random_case(rng, g, idx)
     run_case(ck, case)
+    if idx % 8 == 7: U.unload()
     ck.count(summary(case), nontrivial(case))
     ck.hist('kind', 'random'); ck.hist('top_size', U.size(case['spec'])); ck.hist('top_depth', U.depth(case['spec']))
     ck.hist('nsteps', len(case['steps']))
